@@ -759,6 +759,65 @@ pub fn run(tier: &str) -> i32 {
         });
         all.merge(Acc::merge_all(accs));
     }
+    // bytes moved across the boundary between two pieces of the pre-authentication encoding. PAE frames every
+    // piece with a 64-bit length; an encoder that loses a bit or the upper bytes of a length (bit 7 masked in the
+    // wrong byte, a length narrowed to 8 or 16 bits) makes two different splits of the same bytes encode alike
+    // when the pieces are crafted for it: footer = A || le64(5) || "tail!" with |A| = s - 8. Moving
+    // le64(|footer| mod s) || A to the end of the message / ciphertext and leaving "tail!" as the footer shifts the
+    // boundary by s bytes. With exact lengths the two encodings differ, so every such token must be refused.
+    {
+        let units: Vec<(Proto, usize)> = Proto::ALL.iter().filter(|p| **p != Proto::V2L).flat_map(|p| [128usize, 256, 65_536].into_iter().map(move |sft| (*p, sft))).collect();
+        let accs = par_units(&units, |(p, shift)| {
+            let mut acc = Acc::default();
+            let key = domains::key_pool(*p)[0].clone();
+            let seed = domains::seeds(*p)[2].clone();
+            let le5 = "\u{5}\0\0\0\0\0\0\0";
+            let a = "a".repeat(*shift - 8);
+            let footer = format!("{}{}tail!", a, le5);
+            let case = IssueCase::new(*p, Layer::Core, &key, if p.is_local() { Some(&seed) } else { None }, "{\"data\":\"x\"}", &Some(footer.clone()), &None);
+            let Out::Ok(token) = case.issue() else { return acc };
+            let Some(pt) = parts(&token) else { return acc };
+            let tail = p.tail_len();
+            if pt.decoded.len() < tail {
+                return acc;
+            }
+            let (body, sig) = pt.decoded.split_at(pt.decoded.len() - tail);
+            let mut moved = body.to_vec();
+            moved.extend_from_slice(le5.as_bytes());
+            moved.extend_from_slice(a.as_bytes());
+            moved.extend_from_slice(sig);
+            let respliced = format!("{}{}.{}", pt.header, b64::encode(&moved), b64::encode(b"tail!"));
+            for layer in Layer::ALL {
+                // control: the crafted token itself is authentic under its long footer
+                let mut ctl = Presentation::of(&case, &token);
+                ctl.layer = layer;
+                if !ctl.present().0.is_ok() {
+                    acc.bump("pae-resplice:control-failed(see C01/C02)");
+                    continue;
+                }
+                acc.controls_ok += 1;
+                let mut pres = Presentation::of(&case, &respliced);
+                pres.layer = layer;
+                pres.footer = Some("tail!".into());
+                let (obs, calls) = pres.present();
+                acc.executions += 1;
+                acc.impl_calls += 1;
+                acc.choice_points += 1;
+                acc.see(&(&respliced, layer));
+                if let Judgement::Fail(kind, why) = judge(&case, &token, &pres, &obs, calls, true) {
+                    acc.violate(
+                        format!("C03|{}|{}|pae-resplice-{}|{}", p.name(), layer.name(), shift, kind),
+                        format!("{} bytes moved from the front of the footer to the end of the message / ciphertext (footer crafted as A || le64(5) || \"tail!\"), presented with the footer \"tail!\": {}", shift, why),
+                        json!({"issue": case, "issued_token": token, "family": "pae-resplice", "presentation": pres}),
+                    );
+                } else {
+                    acc.bump("pae-resplice:refused");
+                }
+            }
+            acc
+        });
+        all.merge(Acc::merge_all(accs));
+    }
     all.states = all.distinct.len() as u64;
     let bases_n: usize = all_bases.iter().map(|(_, b)| b.len()).sum();
     let extra = json!({
